@@ -36,7 +36,10 @@ def check(run, project):
     from ..report import RuleView as _RV10
     from ..roles import MarshalRoles as _MR10
     from . import c03 as _c03
-    _c03.r4(_RV10(run, "R4", "T10"), _MR10(project))
+    try:
+        _c03.r4(_RV10(run, "R4", "T10"), _MR10(project))
+    except AnalysisError as ex:
+        run.info(f"T10: the threading of the region list could not be followed ({ex}); not judged here (C03 reports it)")
     # T11 (= C11-A6 = C12-P2): a prefix decodes to a prefix of the SAME events - events compare by their type objects, and the
     # type of an encrypted parameter area is synthesised: its memo must never evict (else the whole decode and the prefix
     # decode hold two different classes)
